@@ -254,13 +254,13 @@ fn run(rep: &Report) {
     rep.assume("ron is not available to this toolchain's registry; the property statement is format independent");
     let fixed = ["3", "4+4", "21^(2*2)--3>5||!true", "&", "[\"5==5\"]", "", "(", "a = 1; a", "\"s\"", "\"", "1, 2; 3", "/*", "a/**/b"];
     common::enumerate(rep, "fixed-strings", fixed.len() as u64, 1, &|i, l| check_node(fixed[i as usize], l));
-    let n = rep.tier.pick(300_000u64, 3_000_000);
+    let n = rep.tier.pick(300_000u64, 10_000_000);
     let depth = rep.tier.pick(4u32, 7);
     common::random_search(rep, "strings", 160, n, &move || programs::arb_program(depth), &|p: &programs::Program, l| {
         l.sample(3, || json!(vcore::clip(&p.src, 120)));
         check_node(&p.src, l)
     });
-    let nc = rep.tier.pick(150_000u64, 1_500_000);
+    let nc = rep.tier.pick(150_000u64, 6_000_000);
     common::random_search(rep, "contexts", 161, nc, &arb_context, &|c: &Ctx, l| {
         l.sample(3, || json!(c.describe()));
         check_context(c, l)
